@@ -410,6 +410,14 @@ def run_driver_guarded(spec, items, hung, procs=16, chunk=20, total_timeout=120,
   the items of the unfinished chunks are re-run, one per process, under item_timeout; an item that still does
   not return yields hung(item).  After max_hung hung items the remaining unfinished items are not evaluated."""
   items = list(items)
+  # wall-clock limits are scaled by how crowded the machine is: on a machine with a load average far above
+  # its core count a healthy item may take many times its usual time, and that must never become a verdict
+  try:
+    crowd = max(1.0, os.getloadavg()[0] / (os.cpu_count() or 1))
+  except OSError:
+    crowd = 1.0
+  total_timeout *= crowd
+  item_timeout = item_timeout * crowd * 2
   chunks = [items[i:i + chunk] for i in range(0, len(items), chunk)]
   results = [None] * len(chunks)
   mp = multiprocessing.get_context("fork")
